@@ -82,6 +82,10 @@ func (g *c16Gen) operand(d int) *Node {
 		}
 		return Op("in", TBool, g.v(), Lit([]int64{t.Val.(int64), t.Val.(int64) + 1}))
 	case k < 6:
+		if g.r.Intn(3) == 0 {
+			// a registered operator called without arguments: an operator (its cost entry counts), not a leaf
+			return Op("<", TBool, Op([]string{"cz", "_cid"}[g.r.Intn(2)], TInt), t)
+		}
 		return Op("cpos", TBool, Op("+", TInt, g.v(), t))
 	case k < 7:
 		switch g.r.Intn(4) {
@@ -295,7 +299,7 @@ func c16Costs(r *rand.Rand, w *W) map[string]float64 {
 			m[fmt.Sprintf("q%d", i)] = vals[r.Intn(len(vals))]
 		}
 	}
-	for _, o := range []string{">", "<", "=", "+", "*", "in", "cpos", "ci", "not", "and", "or", "if"} {
+	for _, o := range []string{">", "<", "=", "+", "*", "in", "cpos", "ci", "not", "and", "or", "if", "cz", "_cid"} {
 		if r.Intn(5) == 0 {
 			m[o] = vals[r.Intn(len(vals))]
 		}
